@@ -181,6 +181,21 @@ def perturb(seq, spec0, p):
             m['initial'] = None
             nonnull = (m['kind'] == 'AddField' and not m['field']['null']) or \
                 (m['kind'] == 'ChangeField' and m['attrs'].get('null') is False)
+            # a column that the same evolution deletes afterwards is never made
+            # non-null in the database (the documented optimisation drops mutations
+            # of a field that is deleted later): nothing the clause protects against
+            fname = m['field']['name'] if m['kind'] == 'AddField' else m['name']
+            gone = False
+            for later in seq[i + 1:]:
+                if later.get('model') == m['model'] and later['app'] == m['app']:
+                    if later['kind'] == 'DeleteField' and later['name'] == fname:
+                        gone = True
+                    if later['kind'] == 'RenameField' and later['old'] == fname:
+                        fname = later['new']
+                    if later['kind'] == 'DeleteModel':
+                        gone = True
+            if nonnull and gone:
+                return seq, k + ':nonnull_then_deleted'
             return seq, k + (':nonnull' if nonnull else ':nullable')
         return None, 'no initial'
     if k == 'retarget_model':
